@@ -8,8 +8,8 @@ import json
 import common as C
 import render as R
 
-UNI = R.Universe({"c0": "/vws/R/conftest.py", "c1": "/vws/R/a/conftest.py", "cs": "/vws/R/s/conftest.py",
-                  "t": "/vws/R/a/b/test_t.py"})
+UNI = R.Universe({"c0": "/vws/R/conftest.py", "c1": "/vws/R/sa/conftest.py", "cs": "/vws/R/s/conftest.py",
+                  "t": "/vws/R/sa/b/test_t.py"})
 REPEATS = 3
 
 
